@@ -28,12 +28,18 @@ pub async fn handle_did_open_text_document(
     let (uri, session) = state.uri_and_session_from_workspace(&params.text_document.uri)?;
     state.documents.handle_open_file(&uri).await;
 
-    send_new_compilation_request(state, session.clone(), &uri, None, false, sync_workspace);
-    #[cfg(fuellabs_sway_verif)]
-    sway_types::verif_hooks::point("open.before_set_compiling", &|| String::new());
-    state.is_compiling.store(true, Ordering::SeqCst);
-    #[cfg(fuellabs_sway_verif)]
-    sway_types::verif_hooks::point("open.set_compiling", &|| String::new());
+    // `is_compiling` is raised before the request is sent (see `send_new_compilation_request`),
+    // so that `wait_for_parsing` waits for this compilation. Raising it after the send races
+    // with the worker: if the worker has already finished, nobody would ever clear the flag.
+    send_new_compilation_request(
+        state,
+        session.clone(),
+        &uri,
+        None,
+        false,
+        sync_workspace,
+        true,
+    );
     state.wait_for_parsing().await;
     state
         .publish_diagnostics(uri, params.text_document.uri, session)
@@ -49,6 +55,7 @@ fn send_new_compilation_request(
     version: Option<i32>,
     optimized_build: bool,
     sync_workspace: Arc<SyncWorkspace>,
+    mark_as_compiling: bool,
 ) {
     let file_versions = file_versions(&state.documents, uri, version.map(|v| v as u64));
 
@@ -61,6 +68,13 @@ fn send_new_compilation_request(
         state.retrigger_compilation.store(true, Ordering::SeqCst);
         #[cfg(fuellabs_sway_verif)]
         sway_types::verif_hooks::point("send.set_retrigger", &|| String::new());
+    }
+    if mark_as_compiling {
+        #[cfg(fuellabs_sway_verif)]
+        sway_types::verif_hooks::point("open.before_set_compiling", &|| String::new());
+        state.is_compiling.store(true, Ordering::SeqCst);
+        #[cfg(fuellabs_sway_verif)]
+        sway_types::verif_hooks::point("open.set_compiling", &|| String::new());
     }
     #[cfg(fuellabs_sway_verif)]
     sway_types::verif_hooks::point("send.before_full_check", &|| String::new());
@@ -123,6 +137,7 @@ pub async fn handle_did_change_text_document(
         // TODO: Set this back to true once https://github.com/FuelLabs/sway/issues/6576 is fixed.
         false,
         sync_workspace,
+        false,
     );
     Ok(())
 }
@@ -153,7 +168,15 @@ pub(crate) async fn handle_did_save_text_document(
         .remove_dirty_flag(&params.text_document.uri)?;
     let (uri, session) = state.uri_and_session_from_workspace(&params.text_document.uri)?;
     let sync_workspace = state.get_sync_workspace_for_uri(&params.text_document.uri)?;
-    send_new_compilation_request(state, session.clone(), &uri, None, false, sync_workspace);
+    send_new_compilation_request(
+        state,
+        session.clone(),
+        &uri,
+        None,
+        false,
+        sync_workspace,
+        false,
+    );
     state.wait_for_parsing().await;
     state
         .publish_diagnostics(uri, params.text_document.uri, session)
